@@ -113,7 +113,7 @@ def element(draw, idx, parallel_bias=True, errors=False, allow_completed_by=True
 
 @st.composite
 def race_case(draw, min_elements=1, max_elements=4, errors=False, allow_completed_by=True, allow_overcommit=True, max_hosts=3,
-              avoid_named_wrap=False):
+              avoid_named_wrap=False, preemption=True):
     n = draw(st.integers(min_elements, max_elements))
     schedule = [
         draw(element(i, errors=errors, allow_completed_by=allow_completed_by, allow_overcommit=allow_overcommit, avoid_named_wrap=avoid_named_wrap))
@@ -133,6 +133,8 @@ def race_case(draw, min_elements=1, max_elements=4, errors=False, allow_complete
         "prep_tasks": draw(st.lists(st.sampled_from([0.0, 0.5, 3.0, 11.0]), max_size=3)),
         "seed": draw(st.integers(0, 100)),
         "quiet": draw(st.integers(0, 3)) == 0,
+        # pre-emption windows at Future.done() inside actor handlers (None = handlers are atomic w.r.t. their executor)
+        "preempt": draw(st.none() | st.lists(st.integers(0, 4), min_size=1, max_size=6)) if preemption else None,
     }
 
 
